@@ -1,5 +1,5 @@
 """C18 - application events arrive once each and in causal order; no get_* hangs after close."""
-from ..mailbox_work import build_case, trace_digest, events_view
+from ..mailbox_work import build_case, trace_digest, events_view, prefix_violation
 from ..monitors import MON
 
 PID = "C18"
@@ -106,6 +106,19 @@ def run_case(spec):
     def wit(app):
         return {"events": events_view(app), "calls": app.calls[:40], "gets": app.get_results[:40],
                 "cfg": {k: v for k, v in cfg.items() if not k.startswith("plan")}, "server": spec["server"]}
+    if not spec.get("mismatch"):
+        # each message event occurs once: what a side received is a prefix of what its peer sent
+        # (messages reach the application through the standing get_message() chain and through the extra gets, so
+        # only membership and multiplicity are judged here; their order is C03's subject)
+        for (rx, tx) in ((drv.a, drv.b), (drv.b, drv.a)):
+            got = list(rx.msgs) + [g[3] for g in rx.get_results if g[1] == "message" and g[2] == "ok"]
+            for m_ in got:
+                if m_ not in tx.sent:
+                    viol.append({"key": "C18/message-event/never-sent", "msg": "%s was handed %r, which the peer never sent" % (rx.name, bytes(m_[:24])), "witness": wit(rx)})
+                    break
+                if got.count(m_) > tx.sent.count(m_):
+                    viol.append({"key": "C18/message-event/twice", "msg": "%s was handed %r %d times" % (rx.name, bytes(m_[:24]), got.count(m_)), "witness": wit(rx)})
+                    break
     for app in (drv.a, drv.b):
         kinds = app.kinds()
         core = [k for k in kinds if k in ORDER]
